@@ -36,7 +36,7 @@ PROPS['C12'] = dict(
     bounded_quick=[('header', 'that the state behind the intact header is COMPLETE (its pages were not recycled by the newest commit) needs the tree layer and the whole commit path, outside the verifier\'s reach as one argument; the oracle damages one header page of files with 0..3 commits and requires contents, DB::check() and a further commit')],
     level='proof',
     composition='Verus lemmas L4: lemma_single_byte_damage_detected / lemma_hash_field_damage_detected (meta unit, from the proved FNV-1a sensitivity lemmas), lemma_fallback_to_intact_slot / lemma_newest_wins (db unit)',
-    units=['meta', 'db', 'freelist', 'open', 'commit', 'nodeio'],
+    units=['meta', 'db', 'freelist', 'open', 'commit', 'nodeio', 'txn'],
     kani_quick=['layout'],
     explanation='DBInner::open (unit open): on a file with one intact header opening fails only when the operating system refuses the lock or the mapping (never a rejection or panic derived from the other slot). Header damage falls back: DBInner::meta returns exactly select_header (newest slot that is tagged META and whose checksum '
                 'matches; current format first, then legacy) with the other slot ARBITRARY, never panics under that precondition (M3); '
@@ -51,7 +51,7 @@ PROPS['C12'] = dict(
 PROPS['C15'] = dict(
     bounded_quick=[('history', 'what reaches the file at page sizes that are not a power of two (1032, 3000: the buffer a page run is written from, growth in 8 MiB steps, reopen) is the product of the allocator, the serialiser and the commit; cex/history.rs replays seeded histories under those page sizes with reopen, check() and a reference map'), ('checker', 'files written by the pinned release hold arbitrary values in the bytes the layout leaves unassigned (padding behind the page type and the entry kind); that the current reader ignores them is a statement about every file of the old writer, which no golden file is available for: cex/checker.rs scribbles over all padding bytes of healthy files and requires identical contents, check() and a further commit')],
     level='proof',
-    units=['meta', 'db', 'open', 'writenode', 'freelist', 'nodeio', 'commit'],
+    units=['meta', 'db', 'open', 'writenode', 'freelist', 'nodeio', 'commit', 'pagenode', 'split'],
     kani_quick=['layout', 'frombuf'],
     explanation='Files written by the current code conform to the layout the readers expect: Page::write_node (unit writenode) writes the page header (kind, count) and, for every entry, an element header whose offset and lengths are the ones LeafElement / BranchElement::key / value read back (offsets pinned by Kani k1_element_layout / k1_payload_addressing). '
                 'The golden files are replaced by the pinned layout written into the contracts: K1 pins every field offset/size/tag of Page, '
@@ -70,7 +70,7 @@ A_PAGEMUT = 'in-memory page construction (prelude/pagemut.rs): the header record
 PROPS['C02'] = dict(
     level='proof',
     composition='MACHINE-CHECKED: theorem_crash_atomicity / corollary_durable_after_ok (unit crash, prelude/crash_spec.rs) from the clause predicates (w1)-(w3) of write_data (lemma_clauses_from_contract) and the recovery oracle select_header of DBInner::meta; remaining paper steps: allocated pages are disjoint from the old tree (T1/F1 + INV-live, lemma L2). H1 (a torn header slot is valid only if complete or unchanged) is the theorem\'s hypothesis and is FALSE in one reachable state: the first commit after a recovery from a torn header write reuses the dead commit\'s transaction id and slot (known finding E14, reproduced by cex_commit_two_power_losses on every run)',
-    units=['commit', 'freelist', 'meta', 'db', 'crash', 'open', 'nodeio'],
+    units=['commit', 'freelist', 'meta', 'db', 'crash', 'open', 'nodeio', 'bucketops', 'bucketcommit'],
     kani_quick=['layout'],
     bounded_quick=[('commit', 'H1, the hypothesis of the crash theorem (a header slot caught half-written is valid only if complete or unchanged), is a statement about the checksum and about what the slot held BEFORE the write; it cannot be a postcondition of any function.  cex/commit.rs builds the crash images of real commits (every prefix of the writes, subsets of the unsynced writes, the header torn at 8-byte words, also across TWO consecutive power losses) and reopens each; where H1 fails on the real code (finding E14) the image is reported under its own key')],
     explanation='Crash atomicity: TxInner::write_data is verified on its real body against a file stand-in whose every operation may fail: '
@@ -87,7 +87,7 @@ PROPS['C02'] = dict(
 )
 PROPS['C11'] = dict(
     level='proof',
-    units=['commit', 'freelist', 'open', 'nodeio'],
+    units=['commit', 'freelist', 'open', 'nodeio', 'txn', 'bucketcommit'],
     explanation='I/O errors in commit: every seek/write_all/flush/sync_all/metadata/resize in write_data may return Err in the stand-in; the `?` on each is the proof '
                 'that the error is propagated and nothing panics (all arithmetic/bounds obligations discharged under the stated size bound). '
                 '(w4a): an Err return after the header write can only come from the two known exits; (w4b)/(w4c) are the known finding E2.',
@@ -100,7 +100,7 @@ PROPS['C11'] = dict(
 PROPS['C03'] = dict(
     level='proof',
     composition='Verus lemmas L2 (contracts/lemmas.vtmpl: lemma_begin_reader, lemma_end_reader, lemma_commit) over an abstract state whose transitions are written with the spec functions of the code contracts; the identification of each transition with the corresponding function postcondition is by reading (same spec fns)',
-    units=['txn', 'freelist', 'commit', 'lemmas', 'nodeio', 'open'],
+    units=['txn', 'freelist', 'commit', 'lemmas', 'nodeio', 'open', 'bucketops', 'bucketcommit'],
     explanation='Snapshot protection: Tx::new (X1) is verified on its real body: a writer releases exactly the pending pages of transactions older than '
                 'open_ro_txs[0] (the oldest open reader, because the list is kept ascending: lock invariant re-established at every guard release) or, '
                 'with no reader, older than itself (F2 is an equality: nothing more, nothing less); a reader gets an unchanged copy of the free list and registers its '
@@ -147,7 +147,7 @@ PROPS['C16'] = dict(
 PROPS['C08'] = dict(
     bounded_quick=[('cursor', 'Node::spill and InnerBucket::merge_nodes / node (an Rc<RefCell<Node>> graph mutated through shared handles: outside both verifiers), the payload bytes Page::write_node copies (bounded Kani codec); Node::split / write / free_page / NodeData::merge, Page::write_node (layout arithmetic, never fails) and InnerBucket::{rebalance, spill, page_node} ARE under contract (units split, nodeio, writenode, bucketcommit, overlay)')],
     level='proof',
-    units=['range', 'cursor', 'pagenode', 'filters', 'bytes', 'data', 'txn'],
+    units=['range', 'cursor', 'pagenode', 'filters', 'bytes', 'data', 'txn', 'overlay'],
     explanation='Ranges: Range::next is verified on its real body for a generic R: RangeBounds<&[u8]> (all nine combinations of included / excluded / unbounded) against the '
                 'documented Cursor semantics: everything yielded lies within both bounds and is the entry at the cursor; on the first call no entry that satisfies both bounds is '
                 'skipped; later calls advance by exactly one entry and yield None only at the end or beyond the upper bound; the cursor stays well-formed. '
@@ -172,7 +172,7 @@ A_ELEMS = 'element headers of mapped pages and their key bytes are stub views of
 PROPS['C07'] = dict(
     bounded_quick=[('history', 'Node::spill and InnerBucket::merge_nodes / node (an Rc<RefCell<Node>> graph mutated through shared handles: outside both verifiers), the payload bytes Page::write_node copies (bounded Kani codec); Node::split / write / free_page / NodeData::merge, Page::write_node (layout arithmetic, never fails) and InnerBucket::{rebalance, spill, page_node} ARE under contract (units split, nodeio, writenode, bucketcommit, overlay)'), ('cursor', 'Node::spill and InnerBucket::merge_nodes / node (an Rc<RefCell<Node>> graph mutated through shared handles: outside both verifiers), the payload bytes Page::write_node copies (bounded Kani codec); Node::split / write / free_page / NodeData::merge, Page::write_node (layout arithmetic, never fails) and InnerBucket::{rebalance, spill, page_node} ARE under contract (units split, nodeio, writenode, bucketcommit, overlay)')],
     level='other',
-    units=['pagenode', 'cursor', 'bucketops', 'range', 'filters', 'overlay', 'data', 'guards'],
+    units=['pagenode', 'cursor', 'bucketops', 'range', 'filters', 'overlay', 'data', 'guards', 'markdel'],
     explanation='A write transaction reads a MIXTURE of untouched mapped pages and modified in-memory nodes. Proved on the real bodies, for all node contents: '
                 'PageNode::{leaf, len, index_page, index, val} satisfy ONE contract stated over the node view (len, leaf, key(i), child(i)) whichever representation is behind it '
                 '(representation independence: the Page and the Node arm answer by the same specification, incl. the binary-search slot-before rule); Node::insert_data / delete are '
@@ -210,7 +210,7 @@ PROPS['C05'] = dict(
 PROPS['C01'] = dict(
     bounded_quick=[('history', 'Node::spill and InnerBucket::merge_nodes / node (an Rc<RefCell<Node>> graph mutated through shared handles: outside both verifiers), the payload bytes Page::write_node copies (bounded Kani codec); Node::split / write / free_page / NodeData::merge, Page::write_node (layout arithmetic, never fails) and InnerBucket::{rebalance, spill, page_node} ARE under contract (units split, nodeio, writenode, bucketcommit, overlay)'), ('cursor', 'Node::spill and InnerBucket::merge_nodes / node (an Rc<RefCell<Node>> graph mutated through shared handles: outside both verifiers), the payload bytes Page::write_node copies (bounded Kani codec); Node::split / write / free_page / NodeData::merge, Page::write_node (layout arithmetic, never fails) and InnerBucket::{rebalance, spill, page_node} ARE under contract (units split, nodeio, writenode, bucketcommit, overlay)')],
     level='other',
-    units=['pagenode', 'cursor', 'range', 'guards', 'bucketops', 'bytes', 'split', 'bucketcommit', 'overlay', 'data', 'writenode', 'markdel', 'commit', 'txn', 'open', 'filters', 'freelist', 'nodeio'],
+    units=['pagenode', 'cursor', 'range', 'guards', 'bucketops', 'bytes', 'split', 'bucketcommit', 'overlay', 'data', 'writenode', 'markdel', 'commit', 'txn', 'open', 'filters', 'freelist', 'nodeio', 'db', 'meta'],
     kani_quick=['layout'],
     kani_thorough=['codec'],
     explanation='Leaf operations against the mathematical ordered map, for all sizes: Node::insert_data is map insert on a strictly ascending entry sequence (replace on equal key, insert at the sorted position otherwise, '
